@@ -23,11 +23,10 @@ class InterpND:
     def build_coeffs(self):
         self.coeffs = np.zeros((2**self.n_dim, self.n_dim, 2))
         a = [[0, 1]] * self.n_dim
-        for i in product(*a):
-            idx = 0
+        # same corner order as the integrals in intgral_step
+        for idx, i in enumerate(product(*a)):
             tmp = np.zeros((self.n_dim, 2))
             for j, idx_i in enumerate(i):
-                idx = idx + idx_i * 2**j
                 if idx_i == 0:
                     tmp[j] = [1, -1]
                 else:
@@ -75,7 +74,10 @@ class InterpND:
             tmp = self.z.__getitem__(j)
             # print(self.int_all[i], self.z, j, tmp)
             self.int_all[i] = tmp
-        self.int_all = self.int_all / (2**self.n_dim)
+        volume = np.ones(())
+        for i in self.xs:
+            volume = volume[..., None] * np.diff(i)
+        self.int_all = self.int_all * volume / (2**self.n_dim)
         self.int_step = np.cumsum(self.int_all.flatten())
 
     def generate(self, N):
